@@ -30,6 +30,8 @@ Proof. apply forallb_forall. exact sweep_push_imm_ok. Qed.
    ModR/M level in C02 *)
 Theorem C01_mem16 : forall c, In c sweep_mem16 -> ok013 c = true.
 Proof. apply forallb_forall. exact sweep_mem16_ok. Qed.
+Theorem C01_mem16_in_bits32 : forall c, In c sweep_mem16_in32 -> ok013 c = true.
+Proof. apply forallb_forall. exact sweep_mem16_in32_ok. Qed.
 Theorem C01_mem32 : forall c, In c sweep_mem32 -> ok013 c = true.
 Proof. apply forallb_forall. exact sweep_mem32_ok. Qed.
 Theorem C01_port : forall c, In c sweep_port -> ok01 c = true.
